@@ -244,6 +244,9 @@ func (s *Server) trackConn(c *connection, isAdd bool) {
 func (c *connection) handle(ctx context.Context) {
 	cCtx, cCancel := context.WithCancel(ctx)
 	defer cCancel()
+	// however the loop ends (write error, panic in the handler) the connection is not being handled any more. Shutdown holds
+	// the server mutex while it waits for this flag, so connection cleanup (which needs that mutex) can not clear it later.
+	defer c.isBeingHandled.Store(false)
 
 	rTimeout := readTimeout
 	if c.readTimeout > 0 {
